@@ -46,6 +46,7 @@ static int   m_npanels = 0, m_taken_cnt = 0;
 static int   m_curpanel[MAXP], m_curw[MAXP];
 static int  *m_chain[MAXP]; static int m_nchain[MAXP];
 static int   m_dfs_open[MAXP], m_prune_open[MAXP];
+static unsigned char *m_inchain[MAXP];
 static unsigned char *m_upd;              /* hash set for (panel,krep) pairs */
 static long  m_upd_cap = 0;
 static int   m_threads_took[MAXP];
@@ -65,7 +66,8 @@ static void mon_reset(void)
 {
     memset(&g_mon, 0, sizeof g_mon); g_mon.min_slack = -1;
     m_failed = 0; m_sh = NULL; m_etree = NULL; m_n = 0; m_have_map = 0; m_taken_cnt = 0; m_npanels = 0;
-    for (int i = 0; i < MAXP; ++i) { m_curpanel[i] = -1; m_nchain[i] = 0; m_dfs_open[i] = 0; m_prune_open[i] = 0; m_threads_took[i] = 0; }
+    for (int i = 0; i < MAXP; ++i) { m_curpanel[i] = -1; m_nchain[i] = 0; m_dfs_open[i] = 0; m_prune_open[i] = 0; m_threads_took[i] = 0; m_inchain[i] = NULL; }
+    m_upd = NULL; m_slot_end = NULL;
 }
 
 static int upd_seen(long panel, long krep)
@@ -129,7 +131,6 @@ static void mon_presetmap(long n, const GlobalLU_t *Glu)
  * still-busy descendants, and that chain is what the thread waits for").  Finality is tracked by the monitor from
  * RELEASE events, not from the racy panel STATE word (a pipelined parent may finish before the child's thread
  * gets round to writing STATE=DONE; that is benign). */
-static unsigned char *m_inchain[MAXP];
 static int compute_chain(int pnum, int p, int w, long bcol)
 {
     const pxgstrf_shared_t *sh = m_sh; int n = m_n;
